@@ -109,6 +109,8 @@ def run_tlc(module, cfg, workers=8, timeout=1800, env=None, coverage=False, extr
         r.depth = int(m.group(1))
     for m in re.finditer(r"Invariant (\S+) is violated", out):
         r.violated.append(m.group(1))
+    for m in re.finditer(r"The invariant of (\S+) is equal to FALSE", out):
+        r.violated.append(m.group(1))
     for m in re.finditer(r"Action property (\S+) is violated", out):
         r.violated.append(m.group(1))
     for m in re.finditer(r"Temporal properties were violated", out):
